@@ -31,7 +31,8 @@ BaseA == <<
 BaseB == <<
   U("GRUPTREE"), <<S("G1"), S("FIELD"), SL>>, <<S("G2"), St(1), SL>>, <<SL>>,
   U("WELSPECS"), <<S("P1"), S("G1"), I(3), I(4), D(1), S("OIL"), St(1), S("STD"), St(3), I(1), SL>>,
-                 <<S("P-2"), B("G2"), I(1), I(1), St(1), B("WATER"), SL>>, <<SL>>,
+                 <<S("P-2"), B("G2"), I(1), I(1), St(1), B("WATER"), SL>>,
+                 <<S("I\"3"), S("G 2"), I(2), I(2), St(1), B("GAS"), SL>>, <<SL>>,      \* (one double quote inside a quoted string)
   U("WCONPROD"), <<S("P1"), B("OPEN"), B("ORAT"), D(9), St(4), I(50), SL>>,
                  <<S("P*"), S("SHUT"), S("BHP"), B("WUOPR"), St(1), D(5), SL>>, <<SL>>,
   U("DATES"), <<I(1), S("JAN"), I(2020), SL>>, <<I(15), B("FEB"), I(2020), S("12:00:00"), SL>>, <<SL>>,
